@@ -73,6 +73,8 @@ class World(object):
         self.s = schema
         self.seed = seed
         self.p_null, self.p_nn, self.p_error, self.p_crash = p_null, p_null_in_nonnull, p_error, p_crash
+        # resolve_type failures come with resolver errors: worlds without the latter have none
+        self.p_type_error = 0.06 if p_error else 0.0
         self._served = {}
         r = random.Random("served:%s" % seed)
         # applications tend to serve all their types the same way (one ORM class, plain dicts):
@@ -96,6 +98,12 @@ class World(object):
 
     def abstract_mode(self, typename):
         return self._abstract[typename]
+
+    def type_resolution_fails(self, abstract_name, obj):
+        """Type resolvers written as functions raise the resolver error for a few objects."""
+        if not self.p_type_error or self._abstract.get(abstract_name) == "__typename__":
+            return False
+        return self.rnd("type-error", abstract_name, obj.type, obj.oid).random() < self.p_type_error
 
     def rnd(self, *key):
         return random.Random("%s|%s" % (self.seed, "|".join(map(str, key))))
@@ -342,7 +350,12 @@ class Binding(object):
         binding = self
 
         def resolve_type(value, context, info):
-            tname = binding.obj_of(value).type
+            obj = binding.obj_of(value)
+            if binding.world.type_resolution_fails(typename, obj):
+                from py_gql.exc import ResolverError
+
+                raise ResolverError("resolver error at type resolution")
+            tname = obj.type
             if mode == "fn-name":
                 return tname
             return info.schema.get_type(tname)
